@@ -255,6 +255,7 @@ func (sr *syncRun) run() {
 		return
 	}
 	sr.P = m.GetStateSyncPoint()
+	r.syncPoint = sr.P
 	r.log.Addf("state sync: L=%d P=%d interval=%d mtb=%d", sr.L, sr.P, sp.Interval, r.plan.Proto.MTB)
 	r.out.Probes["sync_started"]++
 	guard := 0
